@@ -105,7 +105,7 @@ def join(ops):
 # ---------------------------------------------------------------------------------------------------------------- families
 def fam_types(rng, out, tier):
     """per type x value: parameter and return value round trip, every reader, through both tables"""
-    reps = 1 if tier == "quick" else 6
+    reps = 2 if tier == "quick" else 6
     for _ in range(reps):
         for t in TNAMES:
             lat = TYPES[t][2]
@@ -172,7 +172,7 @@ def in_range(t, v):
 
 
 def fam_data(rng, out, tier):
-    n = 60 if tier == "quick" else 1500
+    n = 200 if tier == "quick" else 2000
     for _ in range(n):
         ops = []
         for _k in range(rng.randrange(2, 9)):
@@ -184,7 +184,7 @@ def fam_data(rng, out, tier):
                 v = rng.choice(TYPES[t][2])
                 ops += [M(sc), op("S", "set%sData" % t, name, v)]
             elif c < 0.55:
-                ops += [M(sc), op("S", rng.choice(["setDataObject", "setDataConstObject"]), name, rng.choice([b"T1", b"int", b"MockSupport"]),
+                ops += [M(sc), op("S", rng.choice(["setDataObject", "setDataConstObject"]), name, rng.choice([b"T1", b"T2", b"MockSupport"]),
                                   rng.choice([0, 0x5000, 0x5008]))]
             elif c < 0.92:
                 ops += [M(sc), op("S", "getData", name)]
@@ -195,7 +195,7 @@ def fam_data(rng, out, tier):
 
 
 def fam_outputs(rng, out, tier):
-    n = 80 if tier == "quick" else 2000
+    n = 300 if tier == "quick" else 3000
     for _ in range(n):
         sc = rng.choice(SCOPES)
         f = rng.choice(FUNS)
@@ -244,7 +244,7 @@ def fam_outputs(rng, out, tier):
 
 def fam_flow(rng, out, tier):
     """order, counts, ignore, enable/disable, scopes interleaved, readers after the support was switched"""
-    n = 200 if tier == "quick" else 6000
+    n = 900 if tier == "quick" else 10000
     for _ in range(n):
         ops = []
         scs = [rng.choice(SCOPES) for _k in range(2)]
